@@ -18,7 +18,8 @@ from mon.oracles import nhood
 ID = "C03"
 LEVEL = "exploration"
 TECHNIQUE = "runtime monitor: recorded history + exact-integer neighbourhood oracle; reference = fresh learning-policy bandit trained on the oracle-selected rows"
-RULE = ("Radius / KNearest x {cityblock, chebyshev, sqeuclidean, euclidean} x EpsilonGreedy(0)/UCB1/LinUCB/LinGreedy(0) x dims "
+RULE = ("Radius / KNearest x {cityblock, chebyshev, sqeuclidean, euclidean} x EpsilonGreedy(0)/UCB1/LinUCB/LinGreedy(0) and, seeded "
+        "with the row's own seed, Thompson/Softmax/Popularity/Random/EpsilonGreedy(eps>0) x dims "
         "1-4 on grid {0..3}^d x 5-40 rows over fit + 0-4 partial_fit, queried after every training call; radius placed exactly "
         "on a query-row distance in half of the cases; k in 1..rows; far queries force empty neighbourhoods; "
         "no_nhood_prob_of_arm with zero entries. Non-trivial = query with a row exactly on the boundary / a tie at rank k / an "
@@ -29,12 +30,15 @@ ASSUMPTIONS = ["integer-grid contexts: distances exactly computable; euclidean d
                "the reference trusts the learning-policy code itself (covered by C01 / C02)",
                "KNearest ties with more than 200 admissible completions are not judged (counted as tie_skipped)"]
 
-LPS = ["eg", "ucb", "linucb", "lingreedy"]
+LPS = ["eg", "ucb", "linucb", "lingreedy", "ts", "sm", "pop", "rnd", "eg_explore", "ucb"]
+INT32 = np.iinfo(np.int32).max
 METRICS = ["cityblock", "chebyshev", "sqeuclidean", "euclidean"]
 
 
-def reference(cfg, arms, rows_d, rows_r, rows_X, idx, q):
-    ref = MAB(list(arms), gen.make_lp(cfg["lp"]))
+def reference(cfg, arms, rows_d, rows_r, rows_X, idx, q, seed=None):
+    """fresh bandit of the learning policy alone, trained from scratch on the selected rows; for randomised policies it is
+    seeded with the row's seed (one int32 per row, drawn from the bandit's generator before the rows are partitioned)"""
+    ref = MAB(list(arms), gen.make_lp(cfg["lp"])) if seed is None else MAB(list(arms), gen.make_lp(cfg["lp"]), seed=int(seed))
     d = np.asarray([rows_d[i] for i in idx])
     r = np.asarray([rows_r[i] for i in idx], dtype=float)
     if gen.is_linear(cfg):
@@ -59,13 +63,14 @@ def same(a, b, tol):
 
 def run_case(rs, ctx):
     pk = "radius" if ctx.index % 2 == 0 else "knn"
-    lk = LPS[(ctx.index // 2) % 4]
+    lk = LPS[(ctx.index // 2) % len(LPS)]
+    randomised = lk in ("ts", "sm", "pop", "rnd", "eg_explore")
     metric = METRICS[(ctx.index // 8) % 4]
     labels = gen.pick(rs, ["int", "str", "float"])
     n_arms = int(rs.integers(2, 5))
     arms = list(gen.LABELS[labels][:n_arms])
     dims = int(rs.integers(1, 5))
-    lp = gen.gen_lp(rs, lk, deterministic=True)
+    lp = gen.gen_lp(rs, lk, deterministic=True) if lk != "eg_explore" else {"kind": "eg", "epsilon": float(gen.pick(rs, [0.3, 1.0]))}
     pre = {"arms": arms, "labels": labels, "lp": lp, "np": {"kind": pk}}
     n_chunks = int(rs.integers(1, 6))
     sizes = [int(rs.integers(3, 12))] + [int(rs.integers(1, 8)) for _ in range(n_chunks - 1)]
@@ -107,7 +112,7 @@ def run_case(rs, ctx):
     if cfg["n_jobs"] == 1:
         cfg["backend"] = None
     m = gen.build(cfg)
-    tol = 1e-9 if gen.is_linear(cfg) else 1e-12
+    tol = 1e-6 if gen.is_linear(cfg) else 1e-12  # linear algebra on differently ordered neighbour rows (argpartition), far-away queries extrapolate
     rows_d, rows_r, rows_X = [], [], []
     first_len = 0
     wit = {"cfg": cfg, "chunks": chunks, "queries": Q}
@@ -125,6 +130,10 @@ def run_case(rs, ctx):
             first_len = len(rows_d)
         if ci not in (0, len(chunks) - 1) and rs.integers(2):
             continue
+        row_seeds = [None] * len(Q)
+        if randomised:
+            import copy as _copy
+            row_seeds = _copy.deepcopy(m._rng).randint(INT32, size=len(Q))  # the row seeds the call below is going to draw
         try:
             res = m.predict_expectations(np.asarray(Q, dtype=float))
         except Exception as ex:  # noqa: BLE001
@@ -160,9 +169,12 @@ def run_case(rs, ctx):
                     return
             else:
                 ok = False
+                # a standardised linear model extrapolating to a far-away query amplifies the rounding differences that
+                # come from the library visiting the neighbour rows in another order (argpartition)
+                tol_q = 1e-4 if (gen.is_linear(cfg) and cfg["lp"].get("scale") and max(abs(v) for v in q) > 10) else tol
                 for c_ in cands:
-                    want = reference(cfg, m.arms, rows_d, rows_r, rows_X, c_, q)
-                    if same(got, want, tol):
+                    want = reference(cfg, m.arms, rows_d, rows_r, rows_X, c_, q, row_seeds[j])
+                    if same(got, want, tol_q):
                         ok = True
                         break
                 if not ok:
